@@ -333,7 +333,9 @@ func (r *runner) runCase(c *Case, res *Result) {
 	var sw *badger.StreamWriter
 	content := map[int][]Entry{}
 	pos := map[int]int{}
-	var tablesBefore int
+	var tablesBefore, sessLevel int
+	var idsBefore map[uint64]bool // tables present when the session was prepared
+	var occBefore map[int]bool    // levels holding tables at that moment
 	for i, s := range c.Steps {
 		switch s.Op {
 		case "commit":
@@ -391,10 +393,22 @@ func (r *runner) runCase(c *Case, res *Result) {
 				return
 			}
 			content, pos = map[int][]Entry{}, map[int]int{}
-			tablesBefore = r.numTables()
+			tablesBefore, sessLevel = r.numTables(), s.Level
+			idsBefore, occBefore = map[uint64]bool{}, map[int]bool{}
+			for lvl, tabs := range r.db.VerifTables() {
+				for _, t := range tabs {
+					idsBefore[t.ID] = true
+					occBefore[lvl] = true
+				}
+			}
 			if got := r.levelSet(); got != lvString(s.Lv) {
 				sw.Cancel()
-				fail(i, &mismatch{"sm2:streamwriter level-mismatch", fmt.Sprintf("after %s prepare the levels holding tables are %s, specification %s", s.Mode, got, lvString(s.Lv))})
+				sig := "sm2:streamwriter level-mismatch"
+				if occBefore[0] && !strings.HasPrefix(lvString(s.Lv), "[0") {
+					// the session is going to write below L0: newer versions under older ones
+					sig = "sm2:streamwriter newer-below-older incremental-session-prepared-with-tables-left-in-L0"
+				}
+				fail(i, &mismatch{sig, fmt.Sprintf("after %s prepare the levels holding tables are %s, specification %s", s.Mode, got, lvString(s.Lv))})
 				return
 			}
 		case "content":
@@ -500,11 +514,24 @@ func (r *runner) runCase(c *Case, res *Result) {
 				return
 			}
 		case "flush":
-			if err := sw.Flush(); err != nil {
-				fail(i, &mismatch{"sm2:streamwriter flush-failed", err.Error()})
+			ferr := sw.Flush()
+			sw = nil
+			// WritesToFreeLevel on the real tree: the session's tables must not share a level (>= 1)
+			// with tables that were there before
+			for lvl, tabs := range r.db.VerifTables() {
+				for _, t := range tabs {
+					if lvl >= 1 && !idsBefore[t.ID] && occBefore[lvl] {
+						fail(i, &mismatch{"sm2:streamwriter incremental-session-writes-into-occupied-level",
+							fmt.Sprintf("table %d of this session was added to level %d, which already held tables when the session was prepared (specification: level %d); Flush returned %v",
+								t.ID, lvl, sessLevel, ferr)})
+						return
+					}
+				}
+			}
+			if ferr != nil {
+				fail(i, &mismatch{"sm2:streamwriter flush-failed", ferr.Error()})
 				return
 			}
-			sw = nil
 			n := r.numTables() - tablesBefore
 			if n > 0 {
 				res.Tables += n
